@@ -732,7 +732,9 @@ class World:
             return None
         if kind == "stop":
             target = self.actors[act[1]]
-            return self.call_method(it, "ActorRef", "stop", [Ref(target["ref_cell"], (), False)])
+            holder = self.actors.get(hook.actor_name) if hook else None
+            cell = (holder or {}).get("peer_refs", {}).get(act[1]) or target["ref_cell"]
+            return self.call_method(it, "ActorRef", "stop", [Ref(cell, (), False)])
         raise Unsupported("action " + kind)
 
     def mk_msg(self, idv):
@@ -794,8 +796,26 @@ class World:
             # tokio::select!'s `const BRANCHES: u32 = count!(..)` (CTFE constant, not dumped):
             # the number of branches = number of Out variants minus `Disabled`
             return IntV(len(self.prog.enums["Out"]) - 1, 32)
+        if re.match(r"^[A-Z][A-Z0-9_]+$", last):
+            v = self.source_const(last)
+            if v is not None:
+                return v
         # function items are zero-sized constants
         return FnItem(path)
+
+    def source_const(self, name):
+        """`const NAME: <int type> = <literal>;` in the crate source (CTFE constants have no MIR dump)"""
+        import os
+        from .mirparse import INT_TYPES
+        for root, _d, files in os.walk(self.prog.src_root):
+            for f in files:
+                if not f.endswith(".rs"):
+                    continue
+                txt = open(os.path.join(root, f)).read()
+                m = re.search(r"\bconst\s+%s\s*:\s*(\w+)\s*=\s*([0-9_]+)\s*;" % re.escape(name), txt)
+                if m and m.group(1) in INT_TYPES:
+                    return IntV(int(m.group(2).replace("_", "")), *INT_TYPES[m.group(1)])
+        return None
 
     # ---- call dispatch ---------------------------------------------------------------------
     def call(self, it, callee, args, frame):
